@@ -200,6 +200,36 @@ def bounded_native(ck):
                 fails.append({"obligation": "bounded.value", "clause": "single-event first call", "input": {"version": ver, "beta": float(b0[j]), "log_e_nu": float(e0[j]), "first_call": True},
                               "observed": {"code": float(s1), "spec": float(w[j])}})
                 break
+        # batch compositions: every event at the same energy (what a mono-energetic run produces), on and off the tabulated energies
+        for e_same in (8.0, 8.6, 6.1, 11.87):
+            bm = np.concatenate([np.radians(rng.uniform(0.0, 50.0, 300)), [0.0005, nt.ax1[0], nt.ax1[-1]]])
+            em = np.full(bm.size, e_same)
+            n += bm.size
+            try:
+                gm = np.asarray(fresh_taus(ver).tau_exit_prob(bm.copy(), em.copy()), dtype=float)
+                wm = want(bm, em)
+                if bad(gm, wm):
+                    j = int(np.argmax(np.abs(np.log(np.where(gm > 0, gm, 1e-300) / wm))))
+                    fails.append({"obligation": "bounded.value", "clause": "tau_exit_prob == 10^bilinear(log10 table) for a batch in which every event has the same energy",
+                                  "input": {"version": ver, "log_e_nu of every event": e_same, "events": int(bm.size), "beta": float(bm[j])}, "observed": {"code": float(gm[j]), "spec": float(wm[j])}})
+            except Exception as ex:
+                fails.append({"obligation": "bounded.value", "clause": "a batch in which every event has the same energy is evaluated", "input": {"version": ver, "log_e_nu": e_same}, "observed": "raised %r" % ex})
+        # a production-size batch (more than 2^20 in-range events, not a multiple of it) equals its two halves evaluated separately
+        if ver == VERSIONS[-1]:
+            nbig = (1 << 20) + 4099
+            rb = np.random.default_rng(ck.seed + 55)
+            bbig, ebig = np.radians(rb.uniform(0.2, 41.0, nbig)), rb.uniform(6.5, 11.5, nbig)
+            n += nbig
+            try:
+                whole = np.asarray(fresh_taus(ver).tau_exit_prob(bbig.copy(), ebig.copy()), dtype=float)
+                h = nbig // 2
+                parts = np.concatenate([np.asarray(fresh_taus(ver).tau_exit_prob(bbig[:h].copy(), ebig[:h].copy()), dtype=float), np.asarray(fresh_taus(ver).tau_exit_prob(bbig[h:].copy(), ebig[h:].copy()), dtype=float)])
+                if whole.shape != parts.shape or not np.array_equal(whole, parts):
+                    j = int(np.argmax(whole != parts)) if whole.shape == parts.shape else 0
+                    fails.append({"obligation": "bounded.history", "clause": "a batch of more than 2^20 events equals its two halves evaluated separately, event by event",
+                                  "input": {"version": ver, "events": nbig, "index": j, "beta": float(bbig[j]), "log_e_nu": float(ebig[j]), "seed": ck.seed + 55}, "observed": {"in the whole batch": float(whole[j]), "in its half": float(parts[j])}})
+            except Exception as ex:
+                fails.append({"obligation": "bounded.history", "clause": "a batch of more than 2^20 events is evaluated", "input": {"version": ver, "events": nbig}, "observed": "raised %r" % ex})
         # the exit-probability column of the whole stage is tau_exit_prob of every event (also above the table, at low energy)
         bcol = np.array([0.3, np.radians(43.0), 0.0005, np.radians(44.0), 0.7, np.radians(42.5)])
         ecol = np.array([8.0, 6.5, 9.0, 6.2, 11.0, 7.1])
